@@ -33,7 +33,8 @@ Record jmember := mkMember {
   m_names : list string;           (* field: declarator names *)
   m_params : list (string * string);
   m_has_param_list : bool;         (* false for "()" *)
-  m_first_annot : option annot;    (* first modifier of the body declaration, when it is an annotation *)
+  m_built_annots : list annot;     (* the annotations BuildAnnotationForMethod is called for: all annotation
+                                      modifiers of a class method; the first modifier of an interface method *)
   m_first_is_modifier : bool;      (* the body declaration starts with a modifier *)
   m_annots : list string;          (* names of all annotations written on the member, in order *)
   m_mods : list string;            (* texts of the non-annotation modifiers, in order *)
@@ -254,10 +255,7 @@ Definition record_params (st : fstate) (ps : list (string * string)) : fstate :=
 
 Definition annots_of_first (st : fstate) (m : jmember) : list annot :=
   (* BuildAnnotationForMethod appends to currentMethod.Annotations *)
-  match m_first_annot m with
-  | Some a => (f_annots (s_method st) ++ [a])%list
-  | None => f_annots (s_method st)
-  end.
+  (f_annots (s_method st) ++ m_built_annots m)%list.
 
 Definition set_fields (st : fstate) (fs : list field) (mf : gomap string) (n : ds) : fstate :=
   mkF (s_imports st) (s_clzs st) (s_pkg st) (s_clz st) fs (s_type st) mf
